@@ -55,6 +55,18 @@ CHECKS = {
              'change when denied. Single-rule overrides (! and @) are '
              'enumerated over rules x operations.',
         ref='DESIGN.md section 5 C16'),
+    'C18': dict(
+        category='fault_enumeration',
+        text='Crash points are explorer decisions (before every writer '
+             'commit; statement-level points inside a transaction collapse '
+             'onto it because uncommitted work is discarded) over the write '
+             'corpus with a symbolic pre-state; for every crash point z3 '
+             'proves that the surviving relations equal the pre-state or '
+             'the fault-free post-state (modulo the tolerated auxiliary '
+             'records) and that nothing dangles; forest checked concretely. '
+             'Counterexamples are replayed with a real crash (BaseException '
+             'before Session.commit) on SQLite.',
+        ref='DESIGN.md section 5 C18'),
     'C19': dict(
         text='(a) z3 regular-expression inclusion of the real schema '
              'patterns (Python search/$ semantics) in CUSTOM_[A-Z0-9_]+ for '
